@@ -177,6 +177,28 @@ pub fn run(spec: &ScenarioSpec, ctx: &mut Ctx) -> Result<(), Violation> {
             }
         }
     }
+    // the skip-frames option of the archive reader on a subset of the same cuts
+    let uncut_skip = expect_ok(P, "peppi::read(skip, uncut)", read_slpp(&z, &StreamSpec::default(), true).res)?;
+    let step = (zcuts.len() / 150).max(1);
+    let mut nskip = 0u64;
+    for &k in zcuts.iter().step_by(step) {
+        let ro = read_slpp(&z[..k], &spec.stream, true);
+        nskip += 1;
+        match ro.res {
+            Res::Err(..) => {}
+            Res::Ok(g) => {
+                if let Err((s, msg)) = cmp_games(&g, &uncut_skip, CmpMask::ALL) {
+                    return Err(Violation::new(P, "unexpected-ok", format!("peppi::read(skip) cut ({})", s), format!("archive of {} bytes cut at offset {} was read (skip-frames) as a different game: {}", z.len(), k, msg)));
+                }
+            }
+            Res::Caught(c) => {
+                let mut v = caught_violation(P, "peppi::read(skip)", &c);
+                v.message = format!("{} [archive cut at {} of {}]", v.message, k, z.len());
+                return Err(v);
+            }
+        }
+    }
+    ctx.fault("cut(.slpp, skip-frames)", nskip);
     ctx.fault("cut(.slpp)", zcuts.len() as u64);
     ctx.checks(zcuts.len() as u64);
     ctx.rep.nontrivial = true;
